@@ -42,7 +42,8 @@ LAYOUTS = [
     ("upper case", "O1 O2 - T1 o3 - t3 U1 - t2", {"o1": "t1", "o2": "t1", "o3": "t3", "u1": "t2"}),
     ("root type first", "x1 - object o1 o2 - t1 o3 - t3 u1 - t2", {"x1": "object", "o1": "t1", "o2": "t1", "o3": "t3", "u1": "t2"}),
 ]
-NUMERALS = ["5", "0", "-3", "2.50", "0.125", "-0.5", "1e2", "1.5e-1", "-2E3", "007", "+4"]
+NUMERALS = ["5", "0", "-3", "2.50", "0.125", "-0.5", "1e2", "1.5e-1", "-2E3", "007", "+4", "1.25e-05", "4e-08", "0.00004", "123456789.125",
+            "1.23456", "-1.00005"]
 _N = [0]
 
 
@@ -59,7 +60,7 @@ def _scratch():
 def problem_text(task, listed_atoms, fluent_tokens):
     init = " ".join(listed_atoms + [f"(= {f} {tok})" for f, tok in fluent_tokens.items()])
     goal = " ".join(sexpr.render(g) for g in task["goal"])
-    return (f"(define (problem {task.get('name', 'pu')})\n  (:domain {task.get('domain', 'u')})\n  (:objects {task['objects_text']})\n"
+    return (f"(define (problem {task.get('name', 'pu')})\n  (:domain {task.get('domain', c09.DOMAIN_NAME)})\n  (:objects {task['objects_text']})\n"
             f"  (:init {init})\n  (:goal (and {goal})))\n")
 
 
@@ -194,7 +195,7 @@ def run_numeral(task):
     try:
         back = parse_text(text, symbolic=False)
         got = {lib.fluent_name(f): f.value for f in back.initial_state_fluents.values()}
-        want = Fraction(tok.lower().lstrip("+")) if "e" not in tok.lower() else Fraction(float(tok))
+        want = Fraction(float(tok))  # the double nearest to the numeral
         bad = [k for k in ("(f o1)", "(g)") if k not in got or Fraction(got[k]) != want]
         if bad or len(got) != 2:
             res["outcome"] = "violation"
@@ -232,6 +233,10 @@ CORRUPTIONS = [
     ("goal literal whose object has a non-conforming type", {"goal": "(p u1)"}),
     ("numeric goal over an undeclared function", {"goal": "(>= (zz o1) 1)"}),
     ("the problem names another domain", {"domain": "other"}),
+    ("the problem names a prefix of the domain's name", {"domain": "uni"}),
+    ("the problem names a suffix of the domain's name", {"domain": "dom2"}),
+    ("the problem names an inner part of the domain's name", {"domain": "i-d"}),
+    ("the problem names an extension of the domain's name", {"domain": "uni-dom22"}),
     ("object of an undeclared type", {"objects": "o1 o2 - t1 o3 - t9 u1 - t2"}),
     ("fluent assignment without a value", {"init": "(= (f o1))"}),
 ]
@@ -240,7 +245,7 @@ CORRUPTIONS = [
 def run_corruption(task):
     res = {"task": task, "outcome": "held", "paths": 1, "obligations": 1, "cex": None, "reached": 1}
     what, ch = task["what"], task["change"]
-    t = {"objects_text": ch.get("objects", LAYOUTS[1][1]), "goal": [], "domain": ch.get("domain", "u")}
+    t = {"objects_text": ch.get("objects", LAYOUTS[1][1]), "goal": [], "domain": ch.get("domain", c09.DOMAIN_NAME)}
     base_init = ["(p o1)", "(q o1 o2)"]
     text = problem_text(t, base_init + ([ch["init"]] if "init" in ch else []), {"(f o1)": "1", "(g)": "2"})
     if "goal" in ch:
